@@ -202,7 +202,7 @@ func lockRules() []*Rule {
 		{ID: "LOCK-6", Props: []string{"C06"}, Min: 3,
 			Doc: "descriptor hygiene: POSIX drops all of a process's record locks on a file when any descriptor of it is closed; no open-and-close/close of a database-file descriptor outside a process-wide registry",
 			Run: runLock6},
-		{ID: "LOCK-8", Props: []string{"C06", "C19"}, Min: 1,
+		{ID: "LOCK-8", Props: []string{"C06", "C19", "C12"}, Min: 1,
 			Doc: "an error from Database.RLock means 'not locked' (that is how every caller treats it): each of its paths returns the pager's own verdict, nil, or releases the pager lock before returning anything else",
 			Run: runLock8},
 		{ID: "LOCK-7", Props: []string{"C06", "C07", "C08"}, Min: 3,
